@@ -130,6 +130,7 @@ func main() {
 
 	// ---- phase 0: sorted baseline of every project (also records executed sites) ----------
 	sts := make([]*projState, len(projs))
+	baseFailed := make([][]runResult, len(projs))
 	{
 		var wg sync.WaitGroup
 		for i, p := range projs {
@@ -138,22 +139,70 @@ func main() {
 				defer wg.Done()
 				spec := runSpec{Project: p.Name, StartDir: p.StartDirs[0], MaxProcs: 16, Steps: 3}
 				res := r.execute(i, p, nil, spec, true)
+				// a baseline that fails on the clean tree is retried in fresh processes: a project
+				// that fails identically every time is broken machinery, one that fails differently
+				// or only sometimes is a generator whose outcome depends on the process
+				var failed []runResult
+				for a := 0; a < 4 && res.Err == nil && len(res.Steps) > 0 && res.Steps[0].Exit != 0; a++ {
+					failed = append(failed, res)
+					res = r.execute(i, p, nil, spec, true)
+				}
+				baseFailed[i] = failed
 				sts[i] = &projState{p: p, base: res, sites: res.Sites, variants: map[string]string{}, hashes: map[string]bool{}, orderDep: map[string]bool{}, o2Reported: map[string]bool{}}
 			}(i, p)
 		}
 		wg.Wait()
 	}
-	for _, st := range sts {
+	for i, st := range sts {
 		b := st.base
 		if b.Err != nil {
 			broken("baseline run of %s: %v", st.p.Name, b.Err)
 		}
-		if len(b.Steps) == 0 || b.Steps[0].Exit != 0 {
-			first := stepResult{Exit: -1}
-			if len(b.Steps) > 0 {
-				first = b.Steps[0]
+		for _, f := range baseFailed[i] {
+			execs += len(f.Steps)
+			compared += len(f.Steps)
+		}
+		if len(b.Steps) == 0 {
+			broken("baseline run of %s executed nothing", st.p.Name)
+		}
+		if failed := baseFailed[i]; len(failed) > 0 {
+			all := append(append([]runResult{}, failed...), b)
+			outcomes := map[string]bool{}
+			var descr []string
+			for _, f := range all {
+				outcomes[fmt.Sprintf("%d|%s|%s", f.Steps[0].Exit, f.Steps[0].Output, treeHash(f.Steps[0].Tree))] = true
+				descr = append(descr, fmt.Sprintf("exit %d: %s", f.Steps[0].Exit, firstLine(f.Steps[0].Output)))
 			}
-			broken("baseline generation of project %s on the clean tree failed (exit %d):\n%s", st.p.Name, first.Exit, first.Output)
+			if len(outcomes) == 1 {
+				// identical failures under sorted order: does any other map order succeed?
+				alt := spec0(st.p)
+				alt.MapOrder, alt.Steps = "rev:*", 1
+				ar := r.execute(i, st.p, nil, alt, false)
+				if ar.Err == nil && len(ar.Steps) == 1 {
+					execs++
+					compared++
+					addState(alt, 1)
+					if ar.Steps[0].Exit == 0 {
+						c.Report(fmt.Sprintf("generation-outcome-order-dependent:%s:clean-tree", st.p.Name),
+							fmt.Sprintf("generation of project %s on the clean tree fails with sorted map order (exit %d: %s) and succeeds with every map range reversed", st.p.Name, b.Steps[0].Exit, firstLine(b.Steps[0].Output)),
+							map[string]any{"spec": alt, "kind": "failure", "sorted_output": b.Steps[0].Output})
+						st.aborted = true
+						exhaustive = false
+						incomplete = append(incomplete, fmt.Sprintf("project %s: sorted baseline fails, reversed order succeeds; no further histories executed for it", st.p.Name))
+						continue
+					}
+				}
+				broken("baseline generation of project %s on the clean tree failed %d times identically (exit %d):\n%s", st.p.Name, len(all), b.Steps[0].Exit, b.Steps[0].Output)
+			}
+			c.Report(fmt.Sprintf("unstable-generation:%s:clean-tree", st.p.Name),
+				fmt.Sprintf("%d executions of the identical history %s (sorted map order, clean tree, separate processes) ended in %d different outcomes", len(all), b.Spec, len(outcomes)),
+				map[string]any{"spec": b.Spec, "kind": "determinism", "outcomes": descr})
+			if b.Steps[0].Exit != 0 {
+				st.aborted = true
+				exhaustive = false
+				incomplete = append(incomplete, fmt.Sprintf("project %s: no successful baseline in %d attempts, no further histories executed for it", st.p.Name, len(all)))
+				continue
+			}
 		}
 		if len(st.sites) == 0 {
 			broken("baseline run of %s executed no instrumented map site (VERIF_MAPSITES_OUT not honoured?)", st.p.Name)
@@ -431,13 +480,18 @@ func main() {
 		"map iteration order is controlled only at `for range` statements over maps with orderable keys in the generator packages (api, codegen, codegen/config, codegen/templates, plugin/..., internal/...); the order answers explored per site are sorted, reversed and rotated-by-one, not all permutations",
 		"text/template's own {{range}} over a map visits keys in sorted order (stdlib contract), so template-level map ranges are deterministic without instrumentation",
 		"map iteration inside un-instrumented code (stdlib such as template.Templates(), gqlparser, golang.org/x/tools/imports, go/packages, yaml) is left to Go's per-process random order; every run here is a separate process, so such an order reaching the output shows up as disagreeing runs only probabilistically",
-		"range-over-map sites whose key type cannot be ordered are listed as uncontrolled_map_sites; codegen/config/binder.go (range over types.Info.Defs keyed by *ast.Ident) only fills a name->object map for package-scope names, which are unique per package, so its order cannot reach the output",
+		"range-over-map sites whose key type cannot be ordered are listed as uncontrolled_map_sites; codegen/config/binder.go indexDefs (range over types.Info.Defs keyed by *ast.Ident, first definition per name wins) is one: it only admits package-scope objects, whose names are unique, so its order cannot reach the output on the tree as it is. Its order is NOT enumerated; the bound hand-written packages of the projects multi, input and fed re-declare every bound name in inner scopes (local types, vars, consts, parameters, results, methods, struct fields), so a filter that admits any of them shows up as disagreeing processes (each of the >= 45 processes per project draws its own order)",
 		fmt.Sprintf("the generator packages contain %d `go` statements (counted in the instrumented source files), so scheduling enters only through GOMAXPROCS of the runtime and the external `go list` processes started by packages.Load, which are outside the instrumented surface", r.goStmts),
 		"go.mod and go.sum are excluded from the compared trees: they are rewritten by the go command (-mod=mod, go mod tidy), and go.sum is re-copied by the harness before each step",
 		"parallel workers use sibling directories <scratch>/wNN/<project> of identical length and depth; absolute paths are assumed not to be part of the property (output equality across worker directories is nevertheless checked)",
 	}
 	probe.Cleanup()
 	c.Finish()
+}
+
+// spec0 is the sorted baseline history of a project.
+func spec0(p *project) runSpec {
+	return runSpec{Project: p.Name, StartDir: p.StartDirs[0], MaxProcs: 16, Steps: 3}
 }
 
 func stepHashes(r runResult) []string {
